@@ -198,3 +198,14 @@ Theorem regroup_follower_never_inherits : forall n evs i o t,
   out_of (grun (g0 n) evs) i = GErr o t -> o = i /\ In (GEnd i) evs.
 Proof. exact follower_never_inherits. Qed.
 Print Assumptions regroup_follower_never_inherits.
+
+(* For a client that keeps reading - whatever its timing, half-sent frames, closing - and
+   whatever the resolution times: the reply frames written to the connection are exactly
+   those of the frames whose handler ran ([s_served], a ghost counter), each exactly once, in
+   order; none lost, duplicated or invented. *)
+Theorem stream_reading_client_exactly_one_reply : forall qt frames c,
+  (tc_stall c < 0)%Z ->
+  written_ids (run_conn qt frames c) =
+  seq 1 (s_served (serve_conn c qt (S (length (tc_chunks c))) frames 1 w_first (st0 c))).
+Proof. exact reading_client_exactly_once. Qed.
+Print Assumptions stream_reading_client_exactly_one_reply.
